@@ -80,7 +80,8 @@ def encodeEntries (env : Env) : Entries → DirMsg → DirMsg
     | some cm => encodeEntries env rest (.mk fs (ds ++ [(name, cm)]) ss)
     | none => encodeEntries env rest (.mk fs ds ss)
   | (name, .symlink t) :: rest, .mk fs ds ss =>
-    encodeEntries env rest (.mk fs ds (ss ++ [(name, normTarget t)]))
+    if env.readlinkFails t then encodeEntries env rest (.mk fs ds ss)
+    else encodeEntries env rest (.mk fs ds (ss ++ [(name, normTarget t)]))
   | (_, .special) :: rest, m => encodeEntries env rest m
 end
 
@@ -93,7 +94,7 @@ def cleanEntries (env : Env) : Entries → Bool
   | [] => true
   | (_, .file _ c) :: rest => !env.putFails (.file c) && cleanEntries env rest
   | (_, .dir r ces) :: rest => cleanDir env (.dir r ces) && cleanEntries env rest
-  | (_, .symlink _) :: rest => cleanEntries env rest
+  | (_, .symlink t) :: rest => !env.readlinkFails t && cleanEntries env rest
   | (_, .special) :: rest => cleanEntries env rest
 end
 
@@ -200,8 +201,19 @@ theorem pentries_of_pdir (env : Env) (es : Entries) (h : ∀ p ∈ es, PDir env 
         · simp [cleanEntries, hput]
     | symlink t =>
       simp only [uploadEntries]
-      have := ihr (.mk fs ds (ss ++ [(name, normTarget t)])) st
-      exact EntriesOK.skip this rfl (by rw [encodeEntries]) (by simp [cleanEntries])
+      split
+      · rename_i hrl
+        have := ihr (.mk fs ds ss) (st.err .fs)
+        refine ⟨by rw [encodeEntries]; simp only [hrl, ↓reduceIte]; exact this.enc, this.ext,
+          this.topo, this.nodup, ?_⟩
+        obtain ⟨more, hm, _⟩ := this.errs
+        refine ⟨.fs :: more, by simp [UpState.err] at hm; simpa [UpState.err] using hm, ?_⟩
+        simp [cleanEntries, hrl]
+      · rename_i hrl
+        have := ihr (.mk fs ds (ss ++ [(name, normTarget t)])) st
+        refine EntriesOK.skip this rfl ?_ ?_
+        · rw [encodeEntries]; simp only [hrl]; rfl
+        · simp [cleanEntries, hrl]
     | special =>
       simp only [uploadEntries]
       have := ihr (.mk fs ds ss) st
@@ -394,8 +406,8 @@ def fileOf (env : Env) : Name × Node → Option (Name × Nat × Bool)
   | (name, .file x c) => if env.putFails (.file c) then none else some (name, c, x)
   | _ => none
 
-def symlinkOf : Name × Node → Option (Name × Str)
-  | (name, .symlink t) => some (name, normTarget t)
+def symlinkOf (env : Env) : Name × Node → Option (Name × Str)
+  | (name, .symlink t) => if env.readlinkFails t then none else some (name, normTarget t)
   | _ => none
 
 def dirOf (env : Env) : Name × Node → Option (Name × DirMsg)
@@ -405,7 +417,7 @@ def dirOf (env : Env) : Name × Node → Option (Name × DirMsg)
 theorem encodeEntries_lists (env : Env) (es : Entries) (acc : DirMsg) :
     (encodeEntries env es acc).files = acc.files ++ es.filterMap (fileOf env) ∧
     (encodeEntries env es acc).dirs = acc.dirs ++ es.filterMap (dirOf env) ∧
-    (encodeEntries env es acc).symlinks = acc.symlinks ++ es.filterMap symlinkOf := by
+    (encodeEntries env es acc).symlinks = acc.symlinks ++ es.filterMap (symlinkOf env) := by
   induction es generalizing acc with
   | nil => simp [encodeEntries]
   | cons p rest ih =>
@@ -425,9 +437,14 @@ theorem encodeEntries_lists (env : Env) (es : Entries) (acc : DirMsg) :
           DirMsg.symlinks] using this
     | symlink t =>
       rw [encodeEntries]
-      have := ih (.mk fs ds (ss ++ [(name, normTarget t)]))
-      simpa [List.filterMap_cons, fileOf, dirOf, symlinkOf, DirMsg.files, DirMsg.dirs,
-        DirMsg.symlinks] using this
+      split
+      · rename_i hrl
+        have := ih (.mk fs ds ss)
+        simpa [List.filterMap_cons, fileOf, dirOf, symlinkOf, hrl] using this
+      · rename_i hrl
+        have := ih (.mk fs ds (ss ++ [(name, normTarget t)]))
+        simpa [List.filterMap_cons, fileOf, dirOf, symlinkOf, hrl, DirMsg.files, DirMsg.dirs,
+          DirMsg.symlinks] using this
     | special =>
       rw [encodeEntries]
       have := ih (.mk fs ds ss)
